@@ -82,6 +82,8 @@ def f_pool(tier):
         ("S", ("B", "mul", tij, x), (("j", idx_i3), ("x", ("B", "add", V("w", "real"), N(1.0))))),
         ("B", "lt", tij, x),
         ("Ind", ("B", "mul", T("k", lid=67), ("B", "mul", x, ti)), "r", "k", "x"),
+        ("Cat", "i", (("B", "mul", ti, x), tik), "i"),  # a Cat whose parts take a real input: values indexed by the Cat's own name
+        ("Stack", "k", (("B", "mul", tj, x), tj)),
     ]
     if tier == "thorough":
         pool += [tijk, ("B", "add", tijk, ("B", "mul", tj, x)), ("Stack", "k", (tj, tij, ti)), ("R", "add", tijk, (("k", 2),))]
